@@ -1107,7 +1107,7 @@ pub fn long_runs(prop: &str, tier: Tier, gzip_level: Option<u32>, extra_polls: u
     let chunks: Vec<usize> = vec![4096, 1000, 65_536, 3];
     let mut cases: Vec<(Config, Vec<Op>)> = Vec::new();
     for &c in &chunks {
-        let sizes: Vec<usize> = if c == 3 { vec![1, 2, 3, 4, 7, 10] } else { vec![1, c - 1, c, c + 1, 2 * c + 1, 10_007] };
+        let sizes: Vec<usize> = if c == 3 { vec![1, 2, 3, 4, 7, 10] } else { vec![1, 7, 250, c - 1, c, c + 1, 2 * c + 1, 10_007] };
         let ks: Vec<usize> = tier.pick(vec![1, 2, 3, 4, 5, 6, 7, 8, 9, 10, 15, 16, 17, 31, 32, 33, 64, 65, 100], (1..=130).chain([255, 256, 257, 300, 1000]).collect());
         for &n in &sizes {
             let units: Vec<Vec<Op>> = vec![
@@ -1120,7 +1120,14 @@ pub fn long_runs(prop: &str, tier: Tier, gzip_level: Option<u32>, extra_polls: u
                 vec![Op::WA(n), Op::WA(1), Op::F],
             ];
             for u in &units {
-                for &k in &ks {
+                // small writes are repeated much longer (thousands of calls, tens of kilobytes)
+                let mut ks_n = ks.clone();
+                if n <= 300 {
+                    ks_n.extend([300usize, 1000, 5000].iter().filter(|k| **k * n <= 120_000));
+                    ks_n.sort();
+                    ks_n.dedup();
+                }
+                for &k in &ks_n {
                     if k * n > 6_000_000 {
                         continue;
                     }
